@@ -118,10 +118,9 @@ def judge(exp, resp, faults):
     fail_paths = set(exp.failures)
     seen = set()
     for e in errs:
-        if not isinstance(e, dict) or not isinstance(e.get("message"), str):
-            return "error-without-message"
-        if e.get("path") is not None and not isinstance(e.get("path"), list):
-            return "error-path-not-a-list"
+        shape = explore.error_shape(e)
+        if shape:
+            return shape
         p = tuple(e.get("path") or ())
         if p not in fail_paths:
             return "error-without-failure"
